@@ -204,7 +204,9 @@ pub fn gen_plan(env: &Env, seed: u64, thorough: bool) -> FPlan {
     let n = rng.range(20, if thorough { 110 } else { 80 });
     let letters = b"abcdefghijklmnopqrstuvwxyz";
     let words: Vec<&String> = env.dict_spellings.iter().take(400).collect();
-    let mut pending_word: Vec<u16> = Vec::new();
+    let mut pending_word: Vec<(u16, u8)> = Vec::new();
+    // (bursts of fixed-layout keys come from the composition scenarios' generator)
+    let mut burst_gen = crate::gen::Gen::new(env, rng.next_u64(), crate::gen::Tier::Quick);
     for _ in 0..n {
         let live_ctx: Vec<usize> = (0..NX).filter(|i| ctx_live[*i]).collect();
         let live_sug: Vec<usize> = (0..NS).filter(|i| sug_live[*i]).collect();
@@ -215,12 +217,26 @@ pub fn gen_plan(env: &Env, seed: u64, thorough: bool) -> FPlan {
             0 if !live_ctx.is_empty() => {
                 let x = *rng.pick(&live_ctx);
                 let sp = ctx_spec[x].unwrap();
+                let mut burst_m: Option<u8> = None;
                 let key = if !pending_word.is_empty() {
-                    pending_word.remove(0)
+                    let (k, m) = pending_word.remove(0);
+                    burst_m = Some(m);
+                    k
                 } else if rng.pct(12) {
                     let w = rng.pick(&words);
-                    pending_word = env.keys.codes_for(w);
-                    pending_word.remove(0)
+                    pending_word = env.keys.codes_for(w).into_iter().map(|k| (k, 0u8)).collect();
+                    pending_word.remove(0).0
+                } else if !sp.is_phonetic() && rng.pct(35) && env.layout(sp.layout).is_some() {
+                    // the states the fixed composer distinguishes x the key classes that meet
+                    // them specially (strings with joiners, waiting signs, odd vowel signs)
+                    pending_word = burst_gen.fixed_sharp_burst(env.layout(sp.layout).unwrap());
+                    if pending_word.is_empty() {
+                        env.keys.code_for(*rng.pick(letters) as char).unwrap()
+                    } else {
+                        let (k, m) = pending_word.remove(0);
+                        burst_m = Some(m);
+                        k
+                    }
                 } else if sp.is_phonetic() || rng.pct(60) {
                     env.keys.code_for(*rng.pick(letters) as char).unwrap()
                 } else {
@@ -233,6 +249,9 @@ pub fn gen_plan(env: &Env, seed: u64, thorough: bool) -> FPlan {
                 }
                 sug_live[s] = true;
                 let mut m = if rng.pct(80) { 0 } else { rng.next_u64() as u8 & 3 };
+                if let Some(bm) = burst_m {
+                    m = bm;
+                }
                 if sp.has(ANSI) && !sp.is_phonetic() {
                     // the known third-party encoder panic (C02 finding: ANSI + VOCALIC RR sign,
                     // which both fixed layouts have on an AltGr plane) would abort the child
